@@ -1196,3 +1196,23 @@ def np_sort(ex, args, kw):
             e = zite(to_z3(p) == i, items[i], e)
         out.append(e)
     return Vec(out, "array")
+
+
+@lib(NP, "allclose")
+def np_allclose(ex, args, kw):
+    """np.allclose(a, b): every element np.isclose (shapes must broadcast; differing extents raise ValueError)"""
+    a, b = args[0], args[1]
+    c = np_isclose(ex, [a, b], kw)
+    if _is_scalar(c) or isinstance(c, bool):
+        return c
+    arr = as_ndarray(c)
+    e, _ = arr.snapshot()
+    if all(isinstance(s, int) for s in arr.shape):
+        import itertools
+        return zand(*[e(idx) for idx in itertools.product(*[range(s) for s in arr.shape])])
+    qs = [z3.Int(f"ac{d}!{ex.ctx.path_id}_{len(ex.ctx.pc)}_{len(ex.ctx.assumptions)}") for d in range(arr.ndim)]
+    inb = zand(*[zand(q >= 0, q < to_z3(n)) for q, n in zip(qs, arr.shape)])
+    body = to_z3(e(tuple(qs)))
+    from .parents import _triggers
+    trig = [t for t in _triggers(body, qs[0]) if all(any(a_.eq(q) for a_ in t.children()) for q in qs)]
+    return z3.ForAll(qs, z3.Implies(inb, body), patterns=trig[:1]) if trig else z3.ForAll(qs, z3.Implies(inb, body))
